@@ -141,15 +141,55 @@ var srcCImportErr = strings.Replace(srcC, "import \"errors\"\n", "import (\n\t\"
 
 var variants = []string{"base", "typeerr", "importerr", "unmatched", "malformed"}
 
-var pkgDirs = []string{"", "a", "a/b", "c"}
+// a/d is a sibling of a/b two configuration levels down, and a/b/e (below a/b)
+// imports a/d, so that a/d is configured between a/b and a/b/e.
+const srcD = `package d
+
+import "errors"
+
+// D is documented.
+func D(x int, b bool) error {
+	if b == true {
+		return errors.New("Failure in d.")
+	}
+	if x == x {
+		return nil
+	}
+	return nil
+}
+`
+
+const srcE = `package e
+
+import (
+	"fmt"
+
+	"m/a/d"
+)
+
+// E is documented.
+func E(x int, b bool) error {
+	if !b == false {
+		fmt.Println("e")
+	}
+	if x != x {
+		return errors.New("Failure in e.")
+	}
+	return d.D(x, b)
+}
+`
+
+var pkgDirs = []string{"", "a", "a/b", "a/b/e", "a/d", "c"}
 
 func variantFiles(v string) map[string]string {
 	fs := map[string]string{
-		"go.mod":   goMod,
-		"m.go":     srcRoot,
-		"a/a.go":   srcA,
-		"a/b/b.go": srcB,
-		"c/c.go":   srcC,
+		"go.mod":     goMod,
+		"m.go":       srcRoot,
+		"a/a.go":     srcA,
+		"a/b/b.go":   srcB,
+		"a/b/e/e.go": strings.Replace(srcE, "import (\n\t\"fmt\"\n", "import (\n\t\"errors\"\n\t\"fmt\"\n", 1),
+		"a/d/d.go":   srcD,
+		"c/c.go":     srcC,
 	}
 	switch v {
 	case "base":
